@@ -116,7 +116,10 @@ impl FilterDefinition {
     /// ```
     pub fn from_armor(filt_armor_str: &str) -> Result<FilterDefinition, tackler::Error> {
         let filt_armor = if FilterDefinition::is_armored(filt_armor_str) {
-            filt_armor_str.trim_start_matches(FilterDefinition::FILTER_ARMOR)
+            // exactly one armor prefix (trim_start_matches would strip repeated ones)
+            filt_armor_str
+                .strip_prefix(FilterDefinition::FILTER_ARMOR)
+                .unwrap_or(filt_armor_str)
         } else {
             let filt_begin = match filt_armor_str.char_indices().nth(10) {
                 None => filt_armor_str,
